@@ -381,7 +381,7 @@ pub fn measure(scenario: usize, sched_seed: u64, policy: u8, det_seed: u64) -> O
 
 fn execute(c: &Case15, cause: Cause, point: u32) -> Result<Done, Outcome> {
     let sc = scenario(c.scenario);
-    let allow = Allow { refused_claims: false, late_abort: c.late_abort, listener_after_destroy: false };
+    let allow = Allow { late_abort: c.late_abort, ..Allow::from_env() };
     let mut rig = Rig::connect(c.sched_seed, c.policy, &sc.clients, allow)?;
     let ctl = rig.net.clients[0].ctl.clone();
     let base = ctl.ops.get();
